@@ -24,6 +24,10 @@ pub struct Input {
     pub checker: String,
     pub defs: Vec<Term<Def>>,
     pub symbol: ExternSymbol,
+    /// inputs-only feature: some add/sub/mult/shift-left step of the (only) parameter chain overflows
+    /// the signed range of its width
+    #[serde(default)]
+    pub ovf_chain: bool,
 }
 
 fn interesting(rng: &mut Rng) -> i64 {
@@ -74,6 +78,10 @@ struct Gen<'a> {
     rng: &'a mut Rng,
     defs: Vec<Term<Def>>,
     ntemp: u64,
+    /// this event's (single) parameter chain gets a step that overflows in the signed sense
+    allow_ovf: bool,
+    /// such a step was emitted
+    ovf: bool,
 }
 
 impl<'a> Gen<'a> {
@@ -109,14 +117,17 @@ impl<'a> Gen<'a> {
             let next = self.holder(size);
             let mut pick = self.rng.below(9);
             let k_shift = self.rng.below(4) as i64;
-            // steps that would overflow in the signed sense become plain copies
+            // steps that would overflow in the signed sense become plain copies (unless this chain is an
+            // overflow chain: the analyzer's interval domain gives up on signed overflow, known finding)
             let overflows = match pick {
                 0 => sovf(sext(cur_val, size) + sext(c, size), size),
                 1 => sovf(sext(cur_val, size) - sext(c, size), size),
                 5 => sovf(sext(cur_val, size) * (1i128 << k_shift), size),
                 _ => false,
             };
-            if overflows {
+            if overflows && self.allow_ovf {
+                self.ovf = true;
+            } else if overflows {
                 pick = 8;
             }
             match pick {
@@ -164,6 +175,45 @@ impl<'a> Gen<'a> {
             }
             cur = next;
         }
+        if self.allow_ovf {
+            // one step that certainly overflows the signed range of `size` bytes
+            let bits = 8 * size.min(8) as u32;
+            let (smin, smax) = (-(1i128 << (bits - 1)), (1i128 << (bits - 1)) - 1);
+            if (-1..=1).contains(&sext(cur_val, size)) {
+                let next = self.holder(size);
+                self.push(Def::Assign { var: next.clone(), value: bin(IntAdd, var(&cur), cst(0x10, size)) });
+                cur_val = mask(cur_val.wrapping_add(0x10));
+                cur = next;
+            }
+            let sv = sext(cur_val, size);
+            let next = self.holder(size);
+            match self.rng.below(4) {
+                0 => {
+                    let k = (bits - 1) as i64;
+                    self.push(Def::Assign { var: next.clone(), value: bin(IntLeft, var(&cur), cst(k, size)) });
+                    cur_val = mask(cur_val.wrapping_shl(k as u32));
+                }
+                1 => {
+                    let c = smax as i64;
+                    self.push(Def::Assign { var: next.clone(), value: bin(IntMult, var(&cur), cst(c, size)) });
+                    cur_val = mask(cur_val.wrapping_mul(c));
+                }
+                _ if sv > 0 => {
+                    let r = self.rng.range(0, (sv - 1).min(0o1000) as i64) as i128;
+                    let c = (smax - sv + 1 + r) as i64;
+                    self.push(Def::Assign { var: next.clone(), value: bin(IntAdd, var(&cur), cst(c, size)) });
+                    cur_val = mask(cur_val.wrapping_add(c));
+                }
+                _ => {
+                    let r = self.rng.range(0, (-2 - sv).min(0o1000) as i64) as i128;
+                    let c = (sv - smin + 1 + r) as i64;
+                    self.push(Def::Assign { var: next.clone(), value: bin(IntSub, var(&cur), cst(c, size)) });
+                    cur_val = mask(cur_val.wrapping_sub(c));
+                }
+            }
+            self.ovf = true;
+            cur = next;
+        }
         // final adjustment to the wanted value (the harness only needs the value to steer towards the
         // thresholds; the specification recomputes everything)
         if self.rng.chance(3, 4) {
@@ -172,7 +222,9 @@ impl<'a> Gen<'a> {
             let delta = mask(want.wrapping_sub(cur_val));
             let delta2 = mask(cur_val.wrapping_sub(want));
             let mut how = self.rng.below(3);
-            if (how == 0 && sovf(sext(cur_val, size) + sext(delta, size), size)) || (how == 1 && sovf(sext(cur_val, size) - sext(delta2, size), size)) {
+            if self.allow_ovf {
+                how = 2;
+            } else if (how == 0 && sovf(sext(cur_val, size) + sext(delta, size), size)) || (how == 1 && sovf(sext(cur_val, size) - sext(delta2, size), size)) {
                 how = 2;
             }
             match how {
@@ -337,7 +389,9 @@ pub fn gen_input(seed: u64, idx: u64) -> Input {
     // which parameter (if any) comes out of a stack-slot scenario
     let slot_param = if rng.chance(2, 5) { Some(rng.below(nparams as u64) as usize) } else { None };
     let mut params: Vec<Arg> = Vec::new();
-    let mut g = Gen { rng: &mut rng, defs: vec![], ntemp: 0 };
+    // about 1 in 10 single-parameter chains contains a step that overflows in the signed sense
+    let allow_ovf = nparams == 1 && slot_param.is_none() && rng.chance(1, 10);
+    let mut g = Gen { rng: &mut rng, defs: vec![], ntemp: 0, allow_ovf, ovf: false };
     for i in 0..nparams {
         let regname = ["RDI", "RSI", "RDX"][i];
         if slot_param == Some(i) {
@@ -358,9 +412,10 @@ pub fn gen_input(seed: u64, idx: u64) -> Input {
         };
         g.set_param(&p, want);
     }
+    let ovf_chain = g.ovf;
     let defs = g.defs;
     let symbol = mk_extern(name, "a000", params, false);
-    Input { checker: if umask { "CWE560".into() } else { "CWE467".into() }, defs, symbol }
+    Input { checker: if umask { "CWE560".into() } else { "CWE467".into() }, defs, symbol, ovf_chain }
 }
 
 fn build(input: &Input) -> Project {
@@ -408,7 +463,7 @@ pub fn exec(input: &Input, seed: u64, idx: u64) -> Value {
            "physregs": project.register_set.iter().map(irenc::var).collect::<Vec<_>>(),
            "ptr": u64::from(project.get_pointer_bytesize()),
            "initA": inits[0], "initB": inits[1], "seedA": (seed + idx) % 60000, "seedB": (seed + idx + 7919) % 60000,
-           "warned": warned, "panic": panic,
+           "warned": warned, "panic": panic, "ovf_chain": input.ovf_chain,
            "input": serde_json::to_string(input).unwrap()})
 }
 
